@@ -50,11 +50,13 @@ impl ActPackage for BlockPackage {
 
 impl ActPackageFn for BlockPackage {
     fn execute(&self, ctx: &Context) -> Result<Option<Vars>> {
-        let mut option = ctx.task().options();
+        let option = ctx.task().options();
         let mut acts = self.acts.clone();
         for act in acts.iter_mut() {
-            // append block options to each child act
-            act.options.append(&mut option);
+            // every child act gets the options ($index, $value) of the block
+            for (key, value) in &option {
+                act.options.set(&key, value);
+            }
         }
         ctx.build_acts(&acts, self.mode == RunningMode::Sequence)?;
         Ok(None)
